@@ -280,6 +280,9 @@ func runC14(c *runCtx) {
 				par = extNames[r.Intn(len(extNames))]
 			}
 			name := fmt.Sprintf("application/x-verif-%d-%d", h, i)
+			if r.Intn(6) == 0 {
+				name = fmt.Sprintf("Application/X-Verif-%d-%d.macroEnabled", h, i) // registered, reported and looked up verbatim
+			}
 			if len(extNames) > 0 && r.Intn(5) == 0 {
 				name = extNames[r.Intn(len(extNames))] // the same name registered again
 			}
@@ -341,6 +344,21 @@ func runC14(c *runCtx) {
 			if !strings.HasPrefix(par, "@") { // registered on a copy: not a node of the tree, cannot be a parent later
 				extNames = append(extNames, name)
 			}
+		}
+		if h%8 == 4 {
+			// real registrations on a node, each followed by an Extend on a detection result that is a copy of that very
+			// node (the root for binary junk, text/plain for text): the copy shares nothing with the tree
+			nv := predSpec{"never", nil, 0}
+			bin := "@" + hx([]byte{0, 1, 2, 3})
+			txt := "@" + hx([]byte("plain text"))
+			nm := func(k int) string { return fmt.Sprintf("application/x-verif-copy-%d-%d", h, k) }
+			ops = []c14op{
+				{"", nm(0), ".c0", nil, nv}, {bin, nm(1), ".c1", nil, nv},
+				{"text/plain", nm(2), ".c2", nil, nv}, {txt, nm(3), ".c3", []string{nm(3) + "-alias"}, nv},
+				{"", nm(4), ".c4", nil, nv}, {bin, nm(5), ".c5", nil, predSpec{"always", nil, 0}},
+				{"application/json", nm(6), ".c6", nil, nv}, {"@" + hx([]byte(`{"a":1}`)), nm(7), ".c7", nil, nv},
+			}
+			nops = len(ops)
 		}
 		if h%8 == 6 {
 			// one name registered at two places of the tree, each registration followed by a child under that name
